@@ -128,6 +128,7 @@ def run(ck):
     # two-letter symbols whose letters spell other elements (Cl - C, Br - B, Si - S / I, Sn - S / N, Co - C / O, Na - N, ...)
     heavy_q += ['[Cl,Br]', '[Si,P]', '[Sn,Na]', '[Co,Ni]', '[Cl,Br;D1]', '[Cs,Hf]', '[Nb,No]', '[Os,Pu]', '[Hf,Sc]']
     heavy_t += ['BrCCB(C)C', 'CCCl', 'C[Si](C)(C)I', 'CSC', 'N[Na]', 'C=O.[Co]', 'NS', 'FB(F)F.[U].P', 'O=[Os](=O)(=O)=O', '[H][H].F.[Sc+3].S', 'C[Sn](C)(C)C.NI']
+    heavy_t += ['[Ts].[Og].[Lv]', 'F[Ts]', '[Lv].[Po]']      # the three elements that share one bit (known finding C09-lv-ts-og): the bit itself is still the layout's
     for q in heavy_q:
         for t in heavy_t:
             cases.append({'key': f'{q}|{t}', 'q': q, 't': t, 'thiele': False, 'filter': False, 'scope': False, 'rs': rnd.randrange(1 << 30)})
